@@ -132,6 +132,14 @@ def correlated(repo, chk):
     # assignments inside the loop, inlined by hand (all single-definition per iteration)
     env = {}
     from ..terms import Canon, Scope
+    # loop invariants bound once before the loop (the angle, its cotangent) are part of the expression
+    for s in fn.node.body:
+        if s is lp:
+            break
+        if isinstance(s, ast.Assign) and len(s.targets) == 1 and isinstance(s.targets[0], ast.Name) and not any(isinstance(x, ast.Name) and x.id == s.targets[0].id for x in ast.walk(s.value)) \
+                and sum(1 for n_ in own_nodes(fn.node) if isinstance(n_, ast.Name) and n_.id == s.targets[0].id and isinstance(n_.ctx, ast.Store)) == 1:
+            cn = Canon(m, Scope(None), inline=False, bound=dict(env))
+            env[s.targets[0].id] = cn.t(s.value)
     for s in lp.body:
         if isinstance(s, ast.Assign) and len(s.targets) == 1 and isinstance(s.targets[0], ast.Name):
             cn = Canon(m, Scope(None), inline=False, bound=dict(env))
@@ -159,6 +167,9 @@ def correlated(repo, chk):
     app = [c for c in ast.walk(lp) if isinstance(c, ast.Call) and isinstance(c.func, ast.Attribute) and c.func.attr == 'append']
     appended = app[0].args[0].id if app and isinstance(app[0].args[0], ast.Name) else None
     got = env.get(appended) if appended else None
+    if got is None and app and not isinstance(app[0].args[0], ast.Name):
+        got = Canon(m, Scope(None), inline=False, bound=dict(env)).t(app[0].args[0])       # the expression is appended directly
+        appended = ast.unparse(app[0].args[0])[:40]
     ok = got is not None and got == want_env['corr']
     why = ''
     if not ok and got is not None:
@@ -206,7 +217,7 @@ def labels(repo, chk):
     m = fn.module
     pcs = [c for c in calls(fn, dotted='numpy.percentile')]
     ok_p = len(pcs) == 3 and all(ast.unparse(c.args[0]) == 'decision_boundary' for c in pcs)
-    chk.expect(ok_p, 'C20.4a', 'R15', fn.site(pcs[0]) if pcs else fn.site(), f'{len(pcs)} np.percentile(decision_boundary, ...) cut-point computations', 'cut points are percentiles of the decision values', 'label cut points must be np.percentile of the decision values')
+    chk.expect(ok_p, 'C20.4a', 'R15', fn.site(pcs[0]) if pcs else fn.site(), f'{len(pcs)} np.percentile(decision_boundary, ...) cut-point computations', 'cut points are percentiles of the decision values', 'label cut points must be np.percentile of the decision values', soft=True)
     steps = []
     # names that hold the decision values: bound to <decision function>(X)
     dec_names = {n.targets[0].id for n in own_nodes(fn.node) if isinstance(n, ast.Assign) and isinstance(n.targets[0], ast.Name) and isinstance(n.value, ast.Call) and isinstance(n.value.func, ast.Name)
@@ -429,6 +440,13 @@ def downsample(repo, chk):
     cand_name = None
     for lc in lcs:
         g = lc.generators[0]
+        # [row for row, row_label in zip(X, y) if row_label == label]
+        if isinstance(g.target, ast.Tuple) and len(g.target.elts) == 2 and all(isinstance(e_, ast.Name) for e_ in g.target.elts) and len(g.ifs) == 1 and len(lc.generators) == 1:
+            r_, l_ = g.target.elts[0].id, g.target.elts[1].id
+            if isinstance(lc.elt, ast.Name) and lc.elt.id == r_ and term_of(fn, g.iter, inline=False) == E(f'zip({Xp}, {yp})') and term_of(fn, g.ifs[0], inline=False) in (E(f'{l_} == {label}'), E(f'{label} == {l_}')):
+                ok_f = True
+                st = par.get(lc)
+                cand_name = st.targets[0].id if isinstance(st, ast.Assign) and isinstance(st.targets[0], ast.Name) else None
         if isinstance(g.target, ast.Name) and len(g.ifs) == 1:
             i = g.target.id
             if ast.unparse(lc.elt) == f'{Xp}[{i}]' and term_of(fn, g.iter, inline=False) in (E(f'range(len({yp}))'), E(f'range(len({Xp}))')) and term_of(fn, g.ifs[0], inline=False) == E(f'{yp}[{i}] == {label}'):
